@@ -62,6 +62,9 @@ def handle : List String → String
   | ["run", op, ta, a, _, _, b, _] =>
     match Driver.Dom.Num.parseOperand a, Driver.Dom.Num.parseOperand b with
     | some va, some vb =>
+      if op.startsWith "u" && op.length == 2 then
+        "ok lit=?;? typed=?;? union=?;? call=?;? ucall=?;?"
+      else
       let r := predict op va vb
       s!"ok lit=?;{r} typed={sel ta op};{r} union={sel (unionWith ta) op};{r} call=?;{r} ucall=?;{r}"
     | _, _ => "bad-operand"
